@@ -13,7 +13,19 @@ import (
 	"verif/internal/kf"
 )
 
-const root = "/verif"
+// root is /verif unless VF_ROOT says otherwise (background snapshot runs, mutation runs against a scratch worktree).
+var root = envOr("VF_ROOT", "/verif")
+
+// repoDir is the tree that is instrumented by the overlay generators (VF_REPO for scratch worktrees).
+func repoDir() string { return envOr("VF_REPO", "/repo") }
+
+// modArgs: extra build arguments for the instrumented workers (-modfile of a scratch worktree run).
+func modArgs() []string {
+	if m := os.Getenv("VF_MODFILE"); m != "" {
+		return []string{"-modfile=" + m}
+	}
+	return nil
+}
 
 // planFn builds the plan of a property for a tier.
 type planFn func(tier string) *harness.Plan
